@@ -19,11 +19,12 @@ Section Proper.
     dead m1' = dead m1 -> st_collecting m1' = st_collecting m1 -> dead m2' = dead m2 ->
     ObjFr E ex m1 m2 o x x' -> ObjFr E ex m1' m2' o x x'.
   Proof.
-    intros Hd1 Hc1 Hd2 [F1 F2 F3 F4 F5 F6 F7 F8 F8' Fu Fn F9 F10].
+    intros Hd1 Hc1 Hd2 [F1 F2 F3 F4 F5 F6 F7 F8 F8' Fu Fn Fd F9 F10].
     assert (HD1 : forall t, inD m1' t = inD m1 t) by (intros; apply inD_eq, Hd1).
     assert (HD2 : forall t, inD m2' t = inD m2 t) by (intros; apply inD_eq, Hd2).
     split; auto.
     - intros Hv Hex. rewrite HD1, HD2. auto.
+    - intros Hi. rewrite HD1 in Hi. auto.
     - intros Hex Hb Hp. rewrite HD1, HD2, Hc1. apply F10; auto.
       destruct Hp as [Hp|[Hp Hq]]; [left; exact Hp | right; split; congruence].
   Qed.
@@ -34,13 +35,14 @@ Section Proper.
     wparam m2' = wparam m1' ->
     Fr K E ex m1 m2 -> Fr K E ex m1' m2'.
   Proof.
-    intros Hh1 Hd1 Hc1 Hh2 Hd2 Hc2 Hwp [F1 Fw F2 F3 F4].
+    intros Hh1 Hd1 Hc1 Hh2 Hd2 Hc2 Hwp [F1 Fw F2 Fc F3 F4].
     assert (HD1 : forall t, inD m1' t = inD m1 t) by (intros; apply inD_eq, Hd1).
     assert (HD2 : forall t, inD m2' t = inD m2 t) by (intros; apply inD_eq, Hd2).
     split.
     - congruence.
     - exact Hwp.
     - intros o. rewrite HD1, HD2. auto.
+    - intros Hc o. rewrite HD1, HD2. apply Fc. congruence.
     - intros o x Hx. rewrite (get_heap_eq _ _ _ Hh1) in Hx. destruct (F3 o x Hx) as (x' & Hx' & OF).
       exists x'. rewrite (get_heap_eq _ _ _ Hh2). split; [exact Hx'|]. eapply ObjFr_proper; eauto.
     - intros Hk o x' Hx' Hi Hb Hdr. rewrite (get_heap_eq _ _ _ Hh2) in Hx'. rewrite HD2 in Hi.
